@@ -1,2 +1,3 @@
 import Iodata.Props.C10
 import Iodata.Props.C11
+import Iodata.Props.C12
